@@ -8,6 +8,7 @@ let () =
   | _ :: "pattern" :: file :: fx :: rest -> Pattern_cmd.run_file file (fx <> "pinned") (match rest with s :: _ -> Some s | [] -> None)
   | _ :: "pattern-oracle" :: file :: impl :: _ -> Pattern_cmd.oracle_file file impl
   | _ :: "layout" :: file :: _ -> Match_cmd.layout_file file
+  | _ :: "nucleo-gen" :: seed :: count :: _ -> Nucleo_cmd.gen (int_of_string seed) (int_of_string count)
   | _ :: "nucleo" :: file :: table :: _ -> Nucleo_cmd.run_file file table
   | _ :: "boxcar" :: file :: _ -> Boxcar_cmd.run_file file
   | _ :: "facts" :: file :: impl :: brute :: _ -> Match_cmd.facts_file file impl (int_of_string brute)
